@@ -72,6 +72,38 @@ for _cls, _t in (('PauliList', PLIST),):
         modifies=['self.gs', 'self.ps'], returns='=self',
     )
 
+# ---- the same two operations restricted to a subsystem (local gates): mask = boolean vector over the qubits.  The operation acts on
+# the compressed strings exactly as the unmasked operation acts on whole strings, and every column outside the mask is untouched.
+_M2, _n2 = 'Repeat2(mask)', '2 * len(mask)'
+_cnt = 'MaskCnt(%s, %s)' % (_M2, _n2)
+_idx = 'MaskIdx(%s, %s)' % (_M2, _n2)
+_subj = 'Compress(old(self.gs)[j], %s, %s)' % (_M2, _n2)
+_local = 'forall(j, 0, rows(self.gs), forall(c, 0, cols(self.gs), implies(%s[c] == 0, self.gs[j][c] == old(self.gs)[j][c])))' % _M2
+_mrot_row = ('implies(AcqSum(generator.g, %(s)s, %(n)s // 2) %% 2 == 1, '
+             'forall(k, 0, %(n)s, self.gs[j][%(i)s[k]] == (old(self.gs)[j][%(i)s[k]] + generator.g[k]) %% 2) and '
+             'self.ps[j] == (old(self.ps)[j] + generator.p + 1 + IpowSum(%(s)s, generator.g, %(n)s // 2)) %% 4) and '
+             'implies(AcqSum(generator.g, %(s)s, %(n)s // 2) %% 2 == 0, '
+             'forall(k, 0, %(n)s, self.gs[j][%(i)s[k]] == old(self.gs)[j][%(i)s[k]]) and self.ps[j] == old(self.ps)[j])') % dict(s=_subj, n=_cnt, i=_idx)
+CONTRACTS[PA + 'PauliList.rotate_by#mask'] = dict(
+    params=[('self', PLIST), ('generator', dict(PAULI, exact=False)), ('mask', 'bool1')],
+    requires=['cols(self.gs) == 2 * len(mask)', 'len(generator.g) == %s' % _cnt, 'len(self.ps) == rows(self.gs)', 'bits1(generator.g)', 'bits2(self.gs)'],
+    ensures=['forall(j, 0, rows(self.gs), %s)' % _mrot_row, _local, 'same_loc(result, self)',
+             'same_loc(self.gs, old(self.gs)) and same_loc(self.ps, old(self.ps))',
+             'rows(self.gs) == rows(old(self.gs))', 'cols(self.gs) == cols(old(self.gs))'],
+    modifies=['self.gs', 'self.ps'], returns='=self',
+)
+CONTRACTS[PA + 'PauliList.transform_by#mask'] = dict(
+    params=[('self', PLIST), ('clifford_map', CMAP), ('mask', 'bool1')],
+    requires=['cols(self.gs) == 2 * len(mask)', 'rows(clifford_map.gs) == %s' % _cnt, 'cols(clifford_map.gs) == %s' % _cnt,
+              'len(clifford_map.ps) == rows(clifford_map.gs)', 'len(self.ps) == rows(self.gs)', 'bits2(clifford_map.gs)'],
+    ensures=['rows(self.gs) == rows(old(self.gs))', 'cols(self.gs) == cols(old(self.gs))', 'len(self.ps) == rows(old(self.gs))',
+             'forall(j, 0, rows(self.gs), forall(k, 0, %s, self.gs[j][%s[k]] == OrdG(%s, clifford_map.gs, %s, k)))' % (_cnt, _idx, _subj, _cnt),
+             'forall(j, 0, rows(self.gs), self.ps[j] == (old(self.ps)[j] + XZSum(%s, %s // 2) %% 4 '
+             '+ OrdP(%s, clifford_map.gs, clifford_map.ps, %s, %s // 2)) %% 4)' % (_subj, _cnt, _subj, _cnt, _cnt),
+             _local, 'same_loc(result, self)', 'same_loc(self.gs, old(self.gs))', 'fresh_loc(self.ps)'],
+    modifies=['self.gs', 'self.ps'], returns='=self',
+)
+
 # ------------------------------------------------------------------ C04 / C12 / C17: maps and states
 CONTRACTS[ST + 'CliffordMap.copy'] = dict(
     params=[('self', CMAP)],
@@ -375,4 +407,44 @@ CONTRACTS[CI + 'CliffordGate.forward#map_global_state'] = dict(
               'bits2(self.forward_map.gs)', 'gram_map(self.forward_map.gs, cols(obj.gs) // 2)',
               'forall(k, 0, rows(self.forward_map.gs), self.forward_map.ps[k] == 0 or self.forward_map.ps[k] == 2)'],
     ensures=_inv_obj_post, modifies=['obj.gs', 'obj.ps'], returns='=obj',
+)
+
+# ------------------------------------------------------------------ C09: local gates -- a gate acts on its declared qubits only
+# qubits: the gate's tuple of qubit indices as an integer sequence; the gate is local (n < N).  The postcondition is the masked
+# operation of PauliList with mask := QMask(qubits): on the compressed strings the gate is the small rotation / map, every column
+# of a qubit that is not listed is untouched.
+GATE_GEN_L = {'cls': 'CliffordGate', 'fields': {'n': 'int', 'generator': dict(PAULI, exact=False), 'forward_map': 'none', 'backward_map': 'none', 'qubits': 'int1'}}
+GATE_MAP_L = {'cls': 'CliffordGate', 'fields': {'n': 'int', 'generator': 'none', 'forward_map': CMAP, 'backward_map': 'none', 'qubits': 'int1'}}
+_QM = 'QMask(self.qubits, len(self.qubits), cols(obj.gs) // 2)'
+
+
+def _gate_local(text):
+    return (text.replace('Repeat2(mask)', 'Repeat2(%s)' % _QM).replace('2 * len(mask)', 'cols(obj.gs)')
+            .replace('self.', 'obj.').replace('generator.', 'self.generator.').replace('clifford_map.', 'self.forward_map.')
+            .replace('QMask(obj.qubits, len(obj.qubits)', 'QMask(self.qubits, len(self.qubits)'))
+
+
+_gl_req = ['self.n != cols(obj.gs) // 2', 'cols(obj.gs) % 2 == 0', 'len(self.qubits) >= 1',
+           'forall(k, 0, len(self.qubits), 0 <= self.qubits[k] < cols(obj.gs) // 2)', 'len(obj.ps) == rows(obj.gs)']
+_cntL = _gate_local(_cnt)
+CONTRACTS[CI + 'CliffordGate.forward#generator_local'] = dict(
+    params=[('self', GATE_GEN_L), ('obj', PLIST)],
+    requires=_gl_req + ['len(self.generator.g) == %s' % _cntL, 'bits1(self.generator.g)', 'bits2(obj.gs)'],
+    ensures=['forall(j, 0, rows(obj.gs), %s)' % _gate_local(_mrot_row), _gate_local(_local), 'same_loc(result, obj)'],
+    modifies=['obj.gs', 'obj.ps'], returns='=obj',
+)
+CONTRACTS[CI + 'CliffordGate.backward#generator_local'] = dict(
+    params=[('self', GATE_GEN_L), ('obj', PLIST)],
+    requires=_gl_req + ['len(self.generator.g) == %s' % _cntL, 'bits1(self.generator.g)', 'bits2(obj.gs)', '0 <= self.generator.p <= 3'],
+    ensures=['forall(j, 0, rows(obj.gs), %s)' % _gate_local(_mrot_row).replace('self.generator.p + 1', '(self.generator.p + 2) % 4 + 1'),
+             _gate_local(_local), 'same_loc(result, obj)'],
+    modifies=['obj.gs', 'obj.ps'], returns='=obj',
+)
+_tm = CONTRACTS[PA + 'PauliList.transform_by#mask']
+CONTRACTS[CI + 'CliffordGate.forward#map_local'] = dict(
+    params=[('self', GATE_MAP_L), ('obj', PLIST)],
+    requires=_gl_req + ['rows(self.forward_map.gs) == %s' % _cntL, 'cols(self.forward_map.gs) == %s' % _cntL,
+                        'len(self.forward_map.ps) == rows(self.forward_map.gs)', 'bits2(self.forward_map.gs)'],
+    ensures=[_gate_local(e) for e in _tm['ensures'][3:6]] + ['same_loc(result, obj)'],
+    modifies=['obj.gs', 'obj.ps'], returns='=obj',
 )
